@@ -80,6 +80,13 @@ def _next_event(run, stuck):
     out["ctl_consumed"] = k
     out["next_ctl"] = ctl[k] if k < len(ctl) else None
     out["ctl_tail"] = ctl[max(0, k - 4):k + 2]
+    # hammer events that are not plain successes (the usual suspects when every ctl event was explained)
+    odd = []
+    for hi, h in enumerate(run.get("ham", [])):
+        for i, e in enumerate(h):
+            if (e.get("e") == "End" and e.get("out") != "done") or (e.get("e") == "Conn" and not e.get("ok")):
+                odd.append({"hammer": hi, "conn": h[i - 1] if e.get("e") == "End" and i else None, "event": e})
+    out["hammer_suspects"] = odd[:12]
     return out
 
 
@@ -120,7 +127,9 @@ def _validate(rep, wd, name, runs, succ, consts, max_rounds):
         nxt = info["next_ctl"] or {}
         klass = "trace:%s:%s" % (name, inv or nxt.get("e", "hammer"))
         desc = "run %s (%s) is not a behaviour of Handover.tla: stuck before ctl event #%d %s" % (
-            bad.get("run"), _scenario_class(bad), info["ctl_consumed"] + 1, json.dumps(nxt)[:160])
+            bad.get("run"), _scenario_class(bad), info["ctl_consumed"] + 1,
+            json.dumps(nxt if nxt else {"hammer_suspects": [x["event"] for x in info["hammer_suspects"][:2]]})[:260])
+        bad = dict(bad, diagnosis=info)
         rep.violation(klass, desc, bad, name="%s_run%s.json" % (name, bad.get("run")))
         todo = todo[pos:]
         if rounds >= max_rounds:
